@@ -1,2 +1,245 @@
-use crate::Scenario;
-pub fn scenarios() -> Vec<Scenario> { vec![] }
+//! C20: secret-bearing types.  Their Debug rendering contains no encoding of a secret scalar,
+//! explicit zeroization leaves every secret scalar zero, and dropping a value leaves no copy of its
+//! secret scalars in the storage it occupied (inline bytes inspected after `drop_in_place`; heap
+//! buffers inspected at deallocation time through the allocator hook of alloc_watch.rs).
+
+use frost_core as fc;
+use frost_core::keys::dkg;
+use frost_core::keys::{KeyPackage, SecretShare};
+use serde_json::json;
+use zeroize::Zeroize;
+
+use crate::common::*;
+use crate::rng::TestRng;
+use crate::{scn, Scenario};
+
+pub fn scenarios() -> Vec<Scenario> {
+    vec![scn!(scenario_debug_is_redacted), scn!(scenario_zeroize_leaves_zero), scn!(scenario_drop_wipes_storage)]
+}
+
+/// every textual form in which the scalar could leak
+fn renderings(secret: &[u8]) -> Vec<String> {
+    let mut rev = secret.to_vec();
+    rev.reverse();
+    let mut v = vec![hex(secret), hex(secret).to_uppercase(), hex(&rev), hex(&rev).to_uppercase()];
+    // decimal byte lists as printed by `{:?}` of arrays / vectors
+    v.push(format!("{secret:?}"));
+    v.push(format!("{rev:?}"));
+    // a leak of half the scalar is a leak
+    let h = hex(secret);
+    v.push(h.get(..h.len() / 2).unwrap_or("").to_string());
+    v.push(h.get(h.len() / 2..).unwrap_or("").to_string());
+    v.retain(|s| s.len() >= 16);
+    v
+}
+
+fn no_leak(type_name: &str, rendered: &[String], secrets: &[(&str, Vec<u8>)]) -> Verdict {
+    for text in rendered {
+        for (what, s) in secrets {
+            for needle in renderings(s) {
+                if text.contains(&needle) {
+                    let mut shown = text.clone();
+                    shown.truncate(300);
+                    return fail(
+                        &format!("the Debug rendering of {type_name} contains no encoding of its {what}"),
+                        "redacted",
+                        format!("contains {needle}: {shown}"),
+                    );
+                }
+            }
+        }
+    }
+    Ok(())
+}
+
+fn dbg2<T: std::fmt::Debug>(v: &T) -> Vec<String> {
+    vec![format!("{v:?}"), format!("{v:#?}")]
+}
+
+struct Secrets<C: Suite> {
+    sk: fc::SigningKey<C>,
+    secret_share: SecretShare<C>,
+    kp: KeyPackage<C>,
+    nonces: fc::round1::SigningNonces<C>,
+    r1: dkg::round1::SecretPackage<C>,
+    r2: dkg::round2::SecretPackage<C>,
+    r2_pkg: dkg::round2::Package<C>,
+}
+
+fn secrets<C: Suite>(rng: &mut TestRng, p: &Params) -> Result<Secrets<C>, Stop> {
+    let mut q = Params::generate_with(rng, 3, 2);
+    q.ids = p.ids.iter().take(3).cloned().collect();
+    if q.ids.len() < 3 {
+        q.ids = gen_ids(rng, "mixed", 3);
+    }
+    q.id_scheme = "custom";
+    let keys = keygen_dealer::<C>(rng, &q, false)?;
+    let id = match keys.ids.get(rng.below(keys.ids.len())) {
+        Some(i) => *i,
+        None => return skip("internal"),
+    };
+    let (secret_share, kp) = match (keys.secret_shares.as_ref().and_then(|m| m.get(&id)), keys.key_packages.get(&id)) {
+        (Some(a), Some(b)) => (a.clone(), b.clone()),
+        _ => return skip("internal"),
+    };
+    let (nonces, _) = fc::round1::commit::<C, _>(kp.signing_share(), rng);
+    let run = dkg_rounds::<C>(rng, &keys.ids, 3, 2, false)?;
+    let (r1, r2, r2_pkg) = match (run.r1_secret.get(&id), run.r2_secret.get(&id), run.r2_out.get(&id).and_then(|m| m.values().next())) {
+        (Some(a), Some(b), Some(c)) => (a.clone(), b.clone(), c.clone()),
+        _ => return skip("internal"),
+    };
+    Ok(Secrets {
+        sk: fc::SigningKey::<C>::new(rng),
+        secret_share,
+        kp,
+        nonces,
+        r1,
+        r2,
+        r2_pkg,
+    })
+}
+
+pub fn scenario_debug_is_redacted<C: Suite>(rng: &mut TestRng, p: &Params, notes: &mut Notes) -> Verdict {
+    let s = secrets::<C>(rng, p)?;
+    let _ = notes;
+    no_leak("SigningKey", &dbg2(&s.sk), &[("signing key", s.sk.serialize())])?;
+    no_leak("SigningShare", &dbg2(s.kp.signing_share()), &[("signing share", s.kp.signing_share().serialize())])?;
+    no_leak("SecretShare", &dbg2(&s.secret_share), &[("signing share", s.secret_share.signing_share().serialize())])?;
+    no_leak("KeyPackage", &dbg2(&s.kp), &[("signing share", s.kp.signing_share().serialize())])?;
+    no_leak(
+        "SigningNonces",
+        &dbg2(&s.nonces),
+        &[("hiding nonce", s.nonces.hiding().serialize()), ("binding nonce", s.nonces.binding().serialize())],
+    )?;
+    let coeffs: Vec<(&str, Vec<u8>)> = s.r1.coefficients().iter().map(|c| ("polynomial coefficient", scalar_bytes::<C>(c))).collect();
+    no_leak("dkg::round1::SecretPackage", &dbg2(&s.r1), &coeffs)?;
+    no_leak("dkg::round2::SecretPackage", &dbg2(&s.r2), &[("secret share", scalar_bytes::<C>(&s.r2.secret_share()))])?;
+    no_leak("dkg::round2::Package", &dbg2(&s.r2_pkg), &[("signing share", s.r2_pkg.signing_share().serialize())])?;
+    // containers of secret types
+    let v = vec![s.kp.clone(), s.kp.clone()];
+    no_leak("Vec<KeyPackage>", &dbg2(&v), &[("signing share", s.kp.signing_share().serialize())])?;
+    let o = Some(s.nonces.clone());
+    no_leak(
+        "Option<SigningNonces>",
+        &dbg2(&o),
+        &[("hiding nonce", s.nonces.hiding().serialize()), ("binding nonce", s.nonces.binding().serialize())],
+    )
+}
+
+pub fn scenario_zeroize_leaves_zero<C: Suite>(rng: &mut TestRng, p: &Params, notes: &mut Notes) -> Verdict {
+    let mut s = secrets::<C>(rng, p)?;
+    let _ = notes;
+    let z = scalar_bytes::<C>(&zero::<C>());
+    let is_zero = |b: Vec<u8>, what: &str| check(b == z, &format!("after zeroize() the {what} is zero"), hex(&z), hex(&b));
+
+    let mut share = *s.kp.signing_share();
+    share.zeroize();
+    is_zero(share.serialize(), "SigningShare")?;
+
+    s.secret_share.zeroize();
+    is_zero(s.secret_share.signing_share().serialize(), "signing share of SecretShare")?;
+
+    s.kp.zeroize();
+    is_zero(s.kp.signing_share().serialize(), "signing share of KeyPackage")?;
+
+    s.nonces.zeroize();
+    is_zero(s.nonces.hiding().serialize(), "hiding nonce of SigningNonces")?;
+    is_zero(s.nonces.binding().serialize(), "binding nonce of SigningNonces")?;
+
+    let mut nonce = fc::round1::Nonce::<C>::new(&share, rng);
+    nonce.zeroize();
+    is_zero(nonce.serialize(), "Nonce")?;
+
+    s.r1.zeroize();
+    for c in s.r1.coefficients() {
+        is_zero(scalar_bytes::<C>(&c), "polynomial coefficient of dkg::round1::SecretPackage")?;
+    }
+    s.r2.zeroize();
+    is_zero(scalar_bytes::<C>(&s.r2.secret_share()), "secret share of dkg::round2::SecretPackage")?;
+    s.r2_pkg.zeroize();
+    is_zero(s.r2_pkg.signing_share().serialize(), "signing share of dkg::round2::Package")
+}
+
+// ------------------------------------------------------------------------------------------------
+// drop path
+
+/// the in-memory bytes of a scalar (whatever representation the field library uses)
+fn raw_scalar<C: Suite>(s: &Sc<C>) -> Vec<u8> {
+    let n = std::mem::size_of::<Sc<C>>();
+    let p = s as *const Sc<C> as *const u8;
+    // SAFETY: `s` is a live, initialised value of a plain-data scalar type
+    (0..n).map(|i| unsafe { std::ptr::read_volatile(p.add(i)) }).collect()
+}
+
+fn interesting(p: &[u8]) -> bool {
+    p.len() >= 16 && p.iter().filter(|b| **b != 0).count() >= 8
+}
+
+/// Runs the destructor of `value` in place and reports whether any pattern is still present in the
+/// bytes the value occupied.
+fn residue_after_drop<T>(value: T, patterns: &[Vec<u8>]) -> Option<usize> {
+    let mut slot = std::mem::MaybeUninit::new(value);
+    let n = std::mem::size_of::<T>();
+    // SAFETY: the slot holds an initialised T; after drop_in_place it is never used as a T again
+    unsafe { std::ptr::drop_in_place(slot.as_mut_ptr()) };
+    let p = slot.as_ptr() as *const u8;
+    let bytes: Vec<u8> = (0..n).map(|i| unsafe { std::ptr::read_volatile(p.add(i)) }).collect();
+    patterns
+        .iter()
+        .position(|pat| interesting(pat) && pat.len() <= bytes.len() && bytes.windows(pat.len()).any(|w| w == pat.as_slice()))
+}
+
+fn present_before_drop<T>(value: &T, pattern: &[u8]) -> bool {
+    let n = std::mem::size_of::<T>();
+    let p = value as *const T as *const u8;
+    let bytes: Vec<u8> = (0..n).map(|i| unsafe { std::ptr::read_volatile(p.add(i)) }).collect();
+    pattern.len() <= bytes.len() && bytes.windows(pattern.len()).any(|w| w == pattern)
+}
+
+fn drop_check<T>(name: &str, value: T, patterns: &[Vec<u8>]) -> Verdict {
+    // only patterns that are visibly present in the live value can be looked for afterwards
+    let live: Vec<Vec<u8>> = patterns.iter().filter(|p| interesting(p) && present_before_drop(&value, p)).cloned().collect();
+    if live.is_empty() {
+        drop(value);
+        return Ok(());
+    }
+    match residue_after_drop(value, &live) {
+        None => Ok(()),
+        Some(_) => fail(
+            &format!("dropping a {name} leaves no copy of its secret scalars in the storage it occupied"),
+            "storage wiped",
+            "the secret scalar is still readable in the dropped value's bytes",
+        ),
+    }
+}
+
+pub fn scenario_drop_wipes_storage<C: Suite>(rng: &mut TestRng, p: &Params, notes: &mut Notes) -> Verdict {
+    let s = secrets::<C>(rng, p)?;
+    let _ = notes;
+    let share_raw = raw_scalar::<C>(&share_scalar::<C>(s.kp.signing_share())?);
+    let sk_raw = raw_scalar::<C>(&s.sk.clone().to_scalar());
+    let hid = scalar_from_bytes::<C>(&s.nonces.hiding().serialize()).map(|x| raw_scalar::<C>(&x)).unwrap_or_default();
+    let bin = scalar_from_bytes::<C>(&s.nonces.binding().serialize()).map(|x| raw_scalar::<C>(&x)).unwrap_or_default();
+    let r2_raw = raw_scalar::<C>(&s.r2.secret_share());
+    let r2p_raw = raw_scalar::<C>(&share_scalar::<C>(s.r2_pkg.signing_share())?);
+    let ss_raw = raw_scalar::<C>(&share_scalar::<C>(s.secret_share.signing_share())?);
+    let coeffs: Vec<Sc<C>> = s.r1.coefficients();
+    let coeff_raw: Vec<Vec<u8>> = coeffs.iter().map(raw_scalar::<C>).filter(|p| interesting(p)).collect();
+
+    drop_check("SigningKey", s.sk, &[sk_raw])?;
+    drop_check("KeyPackage", s.kp, &[share_raw])?;
+    drop_check("SecretShare", s.secret_share, &[ss_raw])?;
+    drop_check("SigningNonces", s.nonces, &[hid, bin])?;
+    drop_check("dkg::round2::SecretPackage", s.r2, &[r2_raw])?;
+    drop_check("dkg::round2::Package", s.r2_pkg, &[r2p_raw])?;
+    // dkg::round1::SecretPackage keeps its coefficients in a heap buffer: watch what is handed back to the allocator
+    crate::alloc_watch::start(&coeff_raw);
+    drop(s.r1);
+    let (hits, freed) = crate::alloc_watch::stop();
+    check(
+        hits == 0,
+        "dropping a dkg::round1::SecretPackage wipes the heap buffer of its polynomial coefficients before freeing it",
+        "no coefficient in any freed block",
+        format!("{hits} coefficient(s) found in freed memory ({freed} bytes freed)"),
+    )
+}
